@@ -220,6 +220,9 @@ fn build_case(e: &Enc, mode64: bool) -> Option<Case> {
         return Some(Case { mode64, il_bytes: il_bytes.clone(), cpu_bytes: il_bytes });
     }
     // 32-bit mode through the long-mode equivalent encoding
+    if e.opcode[..] == [0xff] && matches!((e.modrm >> 3) & 7, 2 | 6) {
+        return None; // call r/m and push r/m move the stack pointer by the mode's word size: no long-mode equivalent
+    }
     if x86_only_or_changed(&e.opcode) {
         if let [op @ 0x40..=0x4f] = e.opcode[..] {
             if e.modrm != 0xc0 || e.tail != 1 {
